@@ -313,7 +313,7 @@ theorem objectBuilder_spec {ss : Schemas} {s : Schema} {o : Obj} {ob : Option Bu
   | ok r =>
     simp only [hr] at h
     have hshared := resolveO_ok ss _ _ _ hr
-    by_cases hk : (kindIs r "struct" || kindIs r "ref") = true
+    by_cases hk : kindIs r "struct" = true
     · simp only [hk, if_true] at h
       cases hb : structObjectToBuilder ss (fuelFor ss) s o with
       | err e => simp [hb] at h
@@ -323,7 +323,7 @@ theorem objectBuilder_spec {ss : Schemas} {s : Schema} {o : Obj} {ob : Option Bu
         have hsp := structObjectToBuilder_spec hb
         obtain ⟨_, _, _, fs, hfs, _⟩ := hsp
         exact ⟨by simp [resolvesToStruct, hfs], structObjectToBuilder_spec hb⟩
-    · have hk' : (kindIs r "struct" || kindIs r "ref") = false := by simpa using hk
+    · have hk' : kindIs r "struct" = false := by simpa using hk
       simp [hk'] at h; subst h
       have : ∀ fs g gi m, r ≠ .struct fs g gi m := by
         intro fs g gi m hrr; subst hrr; simp [kindIs, Ty.kind] at hk'
